@@ -1486,3 +1486,56 @@ def identity_keyed_positions(repo, modules: set[str]):
                 used = {x.id for x in ast.walk(val) if isinstance(x, ast.Name)} & siblings
                 out.append((f, n, kv, sorted(used), not used))
     return out
+
+
+# ----------------------------------------------------------------------------------------------------------------- S17
+def loop_variable_after_loop(f: FuncInfo):
+    """Shared rule S17: [(loop, name, use)] - the target of a `for` loop is read by a statement that follows the loop in the same
+    block, with no rebinding in between: after the loop the name holds the LAST element only (or is unbound for an empty
+    sequence), so what was meant for every element (detach, drop, unregister) is done for one."""
+    out = []
+    if isinstance(f.node, ast.Lambda):
+        return out
+    for lp in (x for x in own_nodes(f.node) if isinstance(x, ast.For)):
+        names = {x.id for x in ast.walk(lp.target) if isinstance(x, ast.Name)}
+        blk = getattr(lp, "_parent", None)
+        for fld in ("body", "orelse", "finalbody"):
+            b = getattr(blk, fld, None)
+            if not (isinstance(b, list) and any(lp is st for st in b)):
+                continue
+            live = set(names)
+            for st in b[next(i for i, st in enumerate(b) if st is lp) + 1:]:
+                if not live:
+                    break
+                # a statement that rebinds the name first (assignment, another loop over it) ends its life
+                # a statement that binds the name itself (assignment, loop or comprehension target) reads its own binding
+                stored = {x.id for x in ast.walk(st) if isinstance(x, ast.Name) and isinstance(x.ctx, ast.Store)}
+                for x in ast.walk(st):
+                    if isinstance(x, ast.Name) and x.id in live and x.id not in stored and isinstance(x.ctx, ast.Load):
+                        out.append((lp, x.id, x))
+                        live.discard(x.id)
+                live -= stored
+    return out
+
+
+def rule_s17(ctx, rid: str, in_scope, consequence: str, floor: int = 10):
+    """Report S17 under rule `rid` for the functions `in_scope(f)` selects."""
+    n = 0
+    for f in ctx.repo.all_funcs():
+        if isinstance(f.node, ast.Lambda) or not in_scope(f):
+            continue
+        loops = sum(1 for x in own_nodes(f.node) if isinstance(x, ast.For))
+        n += loops
+        for lp, name, use in loop_variable_after_loop(f):
+            st = use
+            while st is not None and not isinstance(st, ast.stmt):
+                st = getattr(st, "_parent", None)
+            ctx.check(rid, f"S17 {f.local}: `{name}` is not used after the loop that binds it", False, f, st if st is not None else use,
+                      f"`{norm(st)[:70] if st is not None else name}` follows the loop `for {norm(lp.target)} in {norm(lp.iter)[:40]}` and reads its variable: it runs once, for the last element "
+                      f"(and fails for an empty sequence) - {consequence}",
+                      how="reads of a for-loop target in the statements that follow the loop in the same block, before any rebinding",
+                      construct=f"loop variable {name} used after its loop in {f.local}")
+    for _ in range(n):
+        ctx.counts[rid] = ctx.counts.get(rid, 0) + 1
+    ctx.ob(rid, f"{n} loops examined: no loop variable is read after its loop", True, nontrivial=False, how="shared rule S17")
+    ctx.require(n >= floor, f"{rid}: only {n} loops in scope of the loop-variable rule")
